@@ -195,7 +195,7 @@ fn check_program(name: &str, m: &Module, budgets: &[u64], out: &mut ChunkResult)
         cvx_core::engine::trace_case(|| json!({"program": name, "budget": n}));
         out.evaluations += 1;
         out.traces += 1;
-        let t0 = std::time::Instant::now();
+        let t0 = cvx_core::engine::self_cpu();
         // the budget is configured the way a host does it: through Vm::with_max_iter
         let got = realrun::run_program_builder(m, &prog, &natives, &RunCfg { max_instr: n, ..Default::default() });
         out.transitions += got.instr_count;
@@ -207,8 +207,9 @@ fn check_program(name: &str, m: &Module, budgets: &[u64], out: &mut ChunkResult)
         if got.instr_count > n {
             vs.push(Violation::new("C03", format!("over-budget:{name}"), format!("{name} with budget {n} executed {} instructions (result {})", got.instr_count, got.result), case.clone()));
         }
-        if t0.elapsed().as_millis() as u64 > 200 + n / 100 {
-            vs.push(Violation::new("C03", format!("slow:{name}"), format!("{name} with budget {n} took {} ms", t0.elapsed().as_millis()), case.clone()));
+        let spent_ms = (cvx_core::engine::self_cpu() - t0).as_millis() as u64; // CPU time: independent of machine load
+        if spent_ms > 200 + n / 100 {
+            vs.push(Violation::new("C03", format!("slow:{name}"), format!("{name} with budget {n} took {spent_ms} ms of CPU time"), case.clone()));
         }
         let timed_out = innermost(&got.result) == "Timeout";
         match needed {
